@@ -3,10 +3,10 @@ CONSTANTS Urls <- UrlsC
           Cfgs <- CfgsC
           RebuildOnlyIfChanged = FALSE
           FirstOfBatch = FALSE
-          PullOnNull = TRUE
+          PullOnNull = FALSE
           IdentsAccumulate = FALSE
           ForgetIdentRecord = TRUE
-          ConfigRebuilds = FALSE
+          ConfigRebuilds = TRUE
           MaxMsgs = 4
           MaxInFlight = 1
           VersionGuard = FALSE
